@@ -207,6 +207,8 @@ func HarnessNoFalseAlarm() {
 		vrt.Assert("C16.report-delivered", r != nil)
 		if r != nil {
 			vrt.Assert("C16.no-false-mismatch-after-leader-restart", !isMismatch(r.Err))
+			// C17, second sentence: F wrote exactly what A checksummed
+			vrt.Assert("C17.in-flight-blamed-only-when-written-differs", r.Err == nil || !strings.Contains(r.Err.Error(), "in-flight"))
 		}
 		vrt.Reach("leader-restart")
 		return
@@ -233,6 +235,7 @@ func HarnessNoFalseAlarm() {
 	vrt.Assert("C16.report-delivered", r != nil)
 	if r != nil {
 		vrt.Assert("C16.no-false-mismatch", !isMismatch(r.Err))
+		vrt.Assert("C17.in-flight-blamed-only-when-written-differs", r.Err == nil || !strings.Contains(r.Err.Error(), "in-flight"))
 		vrt.Assert("C16.full-range-no-error", r.Err == nil)
 		vrt.Assert("C16.range", r.Range.End == cp)
 	}
@@ -310,25 +313,55 @@ func HarnessDetect() {
 	vrt.Reach("detect-checked")
 }
 
-// HarnessRetry (C17, second clause): a failed write to the underlying store
-// followed by a retry of the same unaltered entries must not be blamed as
-// in-flight corruption.
+// HarnessRetry (C16, C17 second clause, C18): a failed write to the underlying
+// store followed by a retry OF THE SAME ENTRY OBJECTS (what raft does) must not
+// be blamed as in-flight corruption, must leave the caller's entries as they
+// were (a follower's checkpoint keeps the leader's metadata), and must store
+// exactly what a plain store stores. The failing batch holds the entries only,
+// or the entries and the checkpoint (explored).
 func HarnessRetry() {
 	A := newNode("A", memstore.New())
 	F := newNode("F", memstore.New())
+	D := memstore.New() // a plain store given the same calls as F's middleware
 	base := uint64(2)
 	logs := []*raft.Log{mkEntry(base, "e"), mkEntry(base+1, "e"), cpEntry(base+2, 5)}
 	vrt.Assert("C17.leader-store-ok", A.ls.StoreLogs(logs) == nil)
+	// what the leader sends: the entries as A stored them (the checkpoint carries A's metadata)
+	var sent []*raft.Log
+	for i := base; i <= base+2; i++ {
+		l := new(raft.Log)
+		vrt.Assert("C17.leader-read-ok", A.mem.GetLog(i, l) == nil)
+		sent = append(sent, l)
+	}
+	cpExt := append([]byte(nil), sent[2].Extensions...)
+	first := sent[:2]
+	if vrt.Choice("failing-batch-holds-the-checkpoint", 2) == 1 {
+		first = sent
+		vrt.Reach("retry-with-checkpoint")
+	}
 	F.mem.FailStore = 1
-	err := replicate(A, F, base, base+1, 0, nil)
+	err := F.ls.StoreLogs(first)
 	vrt.Assert("C17.injected-failure-surfaces", err != nil)
-	vrt.Assert("C17.retry-ok", replicate(A, F, base, base+2, 0, nil) == nil)
+	vrt.Assert("C18.failed-store-leaves-the-callers-entries-alone", bytes.Equal(sent[2].Extensions, cpExt))
+	vrt.Assert("C17.retry-ok", F.ls.StoreLogs(first) == nil)
+	if len(first) == 2 {
+		vrt.Assert("C17.retry-ok", F.ls.StoreLogs(sent[2:]) == nil)
+	}
+	for _, l := range sent {
+		c := *l
+		vrt.Assert("C18.plain-store-ok", D.StoreLog(&c) == nil)
+	}
 	vrt.Quiesce()
 	r := lastReport(F)
 	vrt.Assert("C16-C17.report-delivered", r != nil)
 	if r != nil {
 		vrt.Assert("C16-C17.retry-not-blamed", r.Err == nil)
 	}
+	// transparency: what reached F's store is what a plain store holds - and what the leader wrote
+	var fv, dv raft.Log
+	vrt.Assert("C18.retried-checkpoint-readable", F.mem.GetLog(base+2, &fv) == nil && D.GetLog(base+2, &dv) == nil)
+	vrt.Assert("C18.retried-checkpoint-stored-unchanged", bytes.Equal(fv.Extensions, dv.Extensions) && bytes.Equal(fv.Extensions, cpExt))
+	vrt.Assert("C18.checkpoints-written-counts-stored-checkpoints", F.mc.Summary().Counters["checkpoints_written"] == 1)
 	vrt.Reach("retry-checked")
 }
 
@@ -489,3 +522,136 @@ func HarnessFnvStep() {
 }
 
 func init() { Harnesses["HarnessFnvStep"] = HarnessFnvStep }
+
+// ---- history exploration (C16, C17 second sentence) ----
+
+// hnode: a cluster member plus what the harness knows about its log - the first
+// index it holds and the identity (a serial number) of the entry at each index.
+type hnode struct {
+	*node
+	first uint64
+	ids   []int
+}
+
+func (h *hnode) last() uint64 { return h.first + uint64(len(h.ids)) - 1 }
+func (h *hnode) id(i uint64) int {
+	if i < h.first || i > h.last() {
+		return -1
+	}
+	return h.ids[i-h.first]
+}
+
+// syncTo makes y's log equal to x's the way raft replication does: y drops the
+// suffix that conflicts with x's log (DeleteRange), then stores x's entries from
+// there on, exactly as x's store returns them (a checkpoint carries x's metadata).
+func syncTo(x, y *hnode) {
+	s := x.first
+	if y.first > s {
+		s = y.first
+	}
+	if s > y.last()+1 {
+		return // y is too far behind: a snapshot install, not log replication
+	}
+	k := s
+	for k <= x.last() && k <= y.last() && x.id(k) == y.id(k) {
+		k++
+	}
+	if k <= y.last() {
+		vrt.Assert("C16.history.follower-delete-ok", y.ls.DeleteRange(k, y.last()) == nil)
+		y.ids = y.ids[:k-y.first]
+	}
+	if k > x.last() {
+		return
+	}
+	var batch []*raft.Log
+	for i := k; i <= x.last(); i++ {
+		l := new(raft.Log)
+		vrt.Assert("C16.history.leader-read-ok", x.mem.GetLog(i, l) == nil)
+		batch = append(batch, l)
+	}
+	if len(y.ids) == 0 {
+		y.first = k
+	}
+	vrt.Assert("C16.history.follower-store-ok", y.ls.StoreLogs(batch) == nil)
+	for i := k; i <= x.last(); i++ {
+		y.ids = append(y.ids, x.id(i))
+	}
+}
+
+// HarnessHistory (C16; C17's "blames in-flight corruption only when ..."): instead
+// of hand-picked scenarios, every history of K steps over a two-node cluster from
+// the alphabet { X appends an entry as leader (replicated to the other node or
+// not), X appends a checkpoint as leader (replicated), X's middleware restarts,
+// X compacts the first entry of its log } - X either node, so leadership changes,
+// conflicting suffixes (the follower truncates and takes the new leader's
+// entries), restarts on non-empty logs, leaders that were followers a moment ago
+// and head truncations inside ranges all occur in every order. Replication
+// always delivers entries unaltered and stores return them unaltered, so no
+// report, on any node, may carry a checksum mismatch or blame in-flight
+// corruption; a node that compacted part of a range reports ErrRangeMismatch.
+func HarnessHistory() {
+	K := vrt.Param("K", 4)
+	serial := 0
+	N := [2]*hnode{{node: newNode("A", memstore.New()), first: 2}, {node: newNode("B", memstore.New()), first: 2}}
+	mk := func(idx uint64) *raft.Log {
+		t := vrt.U64("h.term")
+		vrt.Assume(t >= 1 && t < 1000)
+		ty := raft.LogType(vrt.U8("h.type"))
+		vrt.Assume(ty != raft.LogNoop)
+		return &raft.Log{Index: idx, Term: t, Type: ty, Data: vrt.Bytes("h.data", 1)}
+	}
+	appendTo := func(x *hnode, l *raft.Log) {
+		vrt.Assert("C16.history.leader-store-ok", x.ls.StoreLog(l) == nil)
+		serial++
+		x.ids = append(x.ids, serial)
+	}
+	seen := [2]int{}
+	checkReports := func() {
+		vrt.Quiesce()
+		for n := 0; n < 2; n++ {
+			h := N[n]
+			for ; seen[n] < len(h.reports); seen[n]++ {
+				r := &h.reports[seen[n]]
+				vrt.Assert("C16.history.no-false-mismatch", !isMismatch(r.Err))
+				vrt.Assert("C17.history.in-flight-blamed-only-when-written-differs", r.Err == nil || !strings.Contains(r.Err.Error(), "in-flight"))
+				if r.Range.Start < h.first {
+					vrt.Assert("C16.history.partial-range-is-range-mismatch", r.Err == verifier.ErrRangeMismatch)
+					vrt.Reach("history-partial-range")
+				}
+				vrt.Reach("history-report")
+			}
+		}
+	}
+	// prelude: A leads, two entries, replicated
+	appendTo(N[0], mk(2))
+	appendTo(N[0], mk(3))
+	syncTo(N[0], N[1])
+	for k := 0; k < K; k++ {
+		op := vrt.Choice("op", 10)
+		x, y := N[op&1], N[1-op&1]
+		switch {
+		case op < 4: // x appends an entry as leader
+			appendTo(x, mk(x.last()+1))
+			if op&2 != 0 {
+				syncTo(x, y)
+			}
+		case op < 6: // x appends a checkpoint as leader, replicated
+			appendTo(x, cpEntry(x.last()+1, 5))
+			syncTo(x, y)
+			checkReports()
+			vrt.Reach("history-checkpoint")
+		case op < 8:
+			x.start()
+		default:
+			if len(x.ids) >= 2 {
+				vrt.Assert("C16.history.compact-ok", x.ls.DeleteRange(x.first, x.first) == nil)
+				x.first++
+				x.ids = x.ids[1:]
+			}
+		}
+	}
+	checkReports()
+	vrt.Reach("history-checked")
+}
+
+func init() { Harnesses["HarnessHistory"] = HarnessHistory }
